@@ -34,6 +34,31 @@ type MigRow struct {
 	TokensSame  bool   `json:"tokens_same"` // Go token stream (comments excluded) identical before/after
 	Legacy      int    `json:"legacy"`      // number of legacy marker comment lines the generator wrote
 	Err         string `json:"err,omitempty"`
+	Siblings    string `json:"siblings,omitempty"` // "" or what went wrong in the sibling files of the same migrate run
+}
+
+// siblings of the file under test in the same package (one migrate run handles all of them, in name order):
+// a_first.go carries REAL legacy markers on every line 4..163 (anything the tool remembers per line number from an
+// earlier file meets the look-alikes of x.go), z_last.go carries LOOK-ALIKES inside a raw string on every line 4..163
+// and one real marker at its end (anything remembered from x.go's real markers meets them).
+func migSiblings(pkg string) (legacy, fresh map[string]string) {
+	var a, an, z, zn strings.Builder
+	both := func(x, y *strings.Builder, t string) { x.WriteString(t); y.WriteString(t) }
+	both(&a, &an, "package "+pkg+"\n\ntype SiblingA struct {\n")
+	for i := 0; i < 160; i++ {
+		a.WriteString(fmt.Sprintf("\t// +govalid:maxlength=%d\n", i+1))
+		an.WriteString(fmt.Sprintf("\t//govalid:maxlength=%d\n", i+1))
+	}
+	both(&a, &an, "\tS string\n}\n")
+	both(&z, &zn, "package "+pkg+"\n\nvar siblingHelp = `\n")
+	for i := 0; i < 160; i++ {
+		both(&z, &zn, fmt.Sprintf("// +govalid:maxlength=%d\n", i+1))
+	}
+	both(&z, &zn, "`\n\ntype SiblingZ struct {\n")
+	z.WriteString("\t// +govalid:required\n")
+	zn.WriteString("\t//govalid:required\n")
+	both(&z, &zn, "\tZ string\n}\n")
+	return map[string]string{"a_first.go": a.String(), "z_last.go": z.String()}, map[string]string{"a_first.go": an.String(), "z_last.go": zn.String()}
 }
 
 var migStructFields = []string{"A string", "B int", "C []string", "D float64", "E map[string]int"}
@@ -223,6 +248,15 @@ func longBlock(pkg string, n int, nl string) [2]string {
 	return [2]string{lb.String(), nb.String()}
 }
 
+func firstDiff(a, b string) int {
+	for i := 0; i < len(a) && i < len(b); i++ {
+		if a[i] != b[i] {
+			return i
+		}
+	}
+	return min(len(a), len(b))
+}
+
 func tokensOf(src string) string {
 	fset := token.NewFileSet()
 	f := fset.AddFile("", fset.Base(), len(src))
@@ -298,6 +332,14 @@ func migMain(args []string) {
 		src := filepath.Join(dir, "x.go")
 		_ = os.WriteFile(src, []byte(legacy), 0o644)
 		_ = os.WriteFile(filepath.Join(dirNew, "x.go"), []byte(strings.Replace(fresh, "package "+id, "package "+id+"new", 1)), 0o644)
+		var sibLegacy, sibFresh map[string]string
+		if i%3 == 0 {
+			sibLegacy, sibFresh = migSiblings(id)
+			for n, c := range sibLegacy {
+				_ = os.WriteFile(filepath.Join(dir, n), []byte(c), 0o644)
+				_ = os.WriteFile(filepath.Join(dirNew, n), []byte(strings.Replace(sibFresh[n], "package "+id, "package "+id+"new", 1)), 0o644)
+			}
+		}
 		row := MigRow{ID: id, Before: hex.EncodeToString([]byte(legacy)), Fresh: hex.EncodeToString([]byte(fresh))}
 		la, fa := strings.Split(legacy, "\n"), strings.Split(fresh, "\n")
 		for k := range la {
@@ -321,8 +363,16 @@ func migMain(args []string) {
 		if m := dryRe.FindStringSubmatch(o); m != nil {
 			row.DryCount, _ = strconv.Atoi(m[1])
 		}
+		if sibLegacy != nil {
+			row.DryCount -= 161 // the announced total covers the sibling files too: 160 markers in a_first.go, one in z_last.go
+		}
 		b, _ := os.ReadFile(src)
 		row.DryChanged = string(b) != legacy
+		for n, c := range sibLegacy {
+			if sb, _ := os.ReadFile(filepath.Join(dir, n)); string(sb) != c {
+				row.Siblings += "dry-run changed " + n + "; "
+			}
+		}
 		o, c := r.cmd(r.mod(), r.govalid, "migrate", "./"+id)
 		if c != 0 {
 			row.Err += "migrate: " + tail(o, 300)
@@ -339,6 +389,12 @@ func migMain(args []string) {
 		var others []string
 		for p, content := range after {
 			if p == src {
+				continue
+			}
+			if want, ok := sibFresh[filepath.Base(p)]; ok {
+				if content != want {
+					row.Siblings += filepath.Base(p) + " after migrate differs from the same file with exactly its marker comment lines respelled (first difference at byte " + strconv.Itoa(firstDiff(content, want)) + "); "
+				}
 				continue
 			}
 			if old, ok := before[p]; !ok || old != content {
